@@ -16,6 +16,12 @@ THEOREMS = [P + t for t in (
     "removeComponentApi_exact", "remove_exact_ns", "remove_exact_comp", "remove_exact_nodeG", "remove_exact_node",
     "remove_exact_facility", "remove_exact_switch", "remove_exact_component", "remove_exact_service", "remove_exact_link",
     "remove_exact_child", "prune_exact", "prune_sound", "prune_covers_partial", "removeCp_after_general", "removeNs_exact_general_partial", "handle_fresh_disconnect", "handle_disconnect_entries", "handle_fresh_removeChild", "handle_fresh_unpeer",
+    # wave 3: from the single well-formedness predicate WF (no separation hypotheses, links with any number of ends)
+    "remove_node_exact_wf", "remove_facility_exact_wf", "remove_switch_exact_wf", "remove_component_exact_wf",
+    "remove_service_exact_wf", "remove_link_exact_wf", "remove_child_exact_wf", "disconnect_exact_wf", "unpeer_exact_wf",
+    "prune_exact_wf", "remove_after_wf", "handle_fresh_disconnect_wf", "handle_fresh_removeChild_wf", "handle_fresh_unpeer_wf",
+    # names and the collection phase of prune
+    "lookup_spec", "remove_byName", "remove_byName_child", "remove_node_absent_name", "prune_collect_sound", "prune_api_exact",
 )]
 TRUSTED_BASE = [
     "Model/Remove.lean mirrors by hand remove_cp_and_links / remove_ns_with_cps_and_links / remove_component_with_nss_cps_and_links / "
@@ -70,7 +76,7 @@ def run_recipe(recipe, only_ops=None, graph_level=True):
     try:
         s0 = L.Snap(b.t)
         sv = L.save(b)
-        ops = only_ops if only_ops is not None else L.enumerate_ops(recipe)
+        ops = only_ops if only_ops is not None else L.enumerate_ops(recipe) + L.enumerate_name_ops(recipe)
         if graph_level and only_ops is None:
             for c in sorted(s0.nodes):
                 if s0.nodes[c][0] == "ConnectionPoint":
@@ -86,19 +92,36 @@ def run_recipe(recipe, only_ops=None, graph_level=True):
                     ops.append(["g_remove_node", c])
         inv = {v: k for k, v in s0.ranks.items()}
         wn, we = s0.wire_nodes(), s0.wire_edges()
+        wn5 = wire_nodes5(L, s0)
         has_conn = any(st[0] in ("service", "connect") and st[2] for st in recipe)
+        rfeats = recipe_features(L, recipe, s0)
         for op in ops:
             L.restore(b, sv)
             rec = {"op": op, "recipe": recipe, "has_conn": has_conn}
-            # --- what the property demands, and the request for the model (both from the pre-state only)
+            # --- what the property demands, and the requests for the model (all from the pre-state only)
             try:
                 if op[0].startswith("g_"):
                     rec["expected"], rec["must"] = None, True
                 else:
                     exp, must = L.expected_deleted(b, s0, op, recipe)
                     rec["expected"], rec["must"] = sorted(exp), must
-                rec["lean"] = lean_request(L, b, s0, op, recipe, wn, we)
             except (KeyError, IndexError):
+                if len(op) > 1 and op[-1] == "__absent__" or op[0] in BYNAME_ONLY:
+                    # a name that resolves to nothing: the call must fail and change nothing
+                    rec["expected"], rec["must"] = [], False
+                else:
+                    rec["skip"] = "names an element that does not exist"
+                    out.append(rec)
+                    continue
+            try:
+                rec["lean"] = None if op[0] in BYNAME_ONLY else lean_request(L, b, s0, op, recipe, wn, we)
+            except (KeyError, IndexError):
+                rec["lean"] = None
+            try:
+                rec["lean_n"] = lean_request_byname(L, b, s0, op, recipe, wn5, we)
+            except (KeyError, IndexError):
+                rec["lean_n"] = None
+            if rec["lean"] is None and rec["lean_n"] is None and not op[0].startswith("x_"):
                 rec["skip"] = "names an element that does not exist"
                 out.append(rec)
                 continue
@@ -120,7 +143,7 @@ def run_recipe(recipe, only_ops=None, graph_level=True):
                 st = graph_call(b.t.graph_model.remove_network_node_with_components_nss_cps_and_links, node_id=inv[op[1]])
                 hs = L.Handles()
             else:
-                st, hs = L.run_op(b, op, s0)
+                st, hs = L.run_op(b, [o for o in op if o != "__absent__"], s0)
             s1 = L.Snap(b.t, s0.ranks)
             deleted = sorted(set(s0.nodes) - set(s1.nodes))
             dset = set(deleted)
@@ -128,6 +151,7 @@ def run_recipe(recipe, only_ops=None, graph_level=True):
                      and all(s1.nodes[c] == s0.nodes[c] for c in s1.nodes)
                      and s1.edges == {e for e in s0.edges if e[0] not in dset and e[1] not in dset})
             rec.update(status=st, deleted=deleted, frame=frame, kinds={c: (s0.nodes[c][1] or s0.nodes[c][0]) for c in s0.nodes})
+            rec["feats"] = sorted(rfeats | op_features(L, rec, s0)) if not op[0].startswith("g_") else []
             hl = []
             for lab, h, fresh in hs.items:
                 try:
@@ -145,6 +169,67 @@ def run_recipe(recipe, only_ops=None, graph_level=True):
     finally:
         L.dispose(b)
     return out
+
+
+def recipe_features(L, recipe, s0):
+    """The shapes the task singles out, recognised on the built topology (printed as a distribution in the evidence)."""
+    f = set()
+    steps = {}
+    for st in recipe:
+        steps.setdefault(st[0], []).append(st)
+    used = [x for st in steps.get("service", []) for x in st[2]] + [st[2] for st in steps.get("connect", [])]
+    if steps.get("peer"):
+        f.add("peered-services")
+        if len(steps.get("node", [])) >= 3 and len(steps.get("service", [])) >= 2:
+            f.add("peered-services-in-a-large-topology")
+    if any(x[0] == "c" for x in used):
+        f.add("sub-interface-connected-to-service")
+    kids = {(st[1], st[2], st[3]) for st in steps.get("child", [])}
+    if any(x[0] == "n" and (x[1], x[2], x[3]) in kids for x in used):
+        f.add("port-with-sub-interfaces-connected-to-service")
+    adj = s0.adj()
+    for c, v in s0.nodes.items():
+        if v[0] == "Link" and len(L.link_ends(s0, c, adj)) >= 3:
+            f.add("link-with-3+-ends")
+    for st in steps.get("facility", []):
+        conn = [x for x in used if x[0] == "f" and x[1] == st[1]]
+        if st[3] >= 2 and 0 < len(conn) < st[3]:
+            f.add("facility-some-interfaces-connected-some-not")
+        if st[3] >= 3:
+            f.add("facility-3-interfaces")
+    names = {}
+    for c, v in s0.nodes.items():
+        if v[2] is not None:
+            names.setdefault(v[2], set()).add(v[0])
+    if any(len(cl) > 1 for cl in names.values()):
+        f.add("same-name-in-different-classes")
+    nl = sorted(names)
+    if any(b.startswith(a) and a != b for a in nl for b in nl):
+        f.add("name-is-prefix-of-another")
+    if any(st[0] == "opts" and st[1].get("ids") for st in recipe):
+        f.add("caller-supplied-prefix-related-ids")
+    return f
+
+
+def op_features(L, rec, s0):
+    f = set()
+    exp = set(rec.get("expected") or [])
+    adj = s0.adj()
+    for c, v in s0.nodes.items():
+        if v[0] == "Link":
+            E = L.link_ends(s0, c, adj)
+            if len(E) >= 3 and len(E & exp) >= 2:
+                f.add("shared-link-with-2+-ends-inside-the-removed")
+    names = {c: v[2] for c, v in s0.nodes.items()}
+    roots = [c for c in exp if True]
+    op = rec["op"]
+    if len(op) > 1 and isinstance(op[-1], str) and op[-1] != "__absent__":
+        nm = op[-1]
+        if any(n and n != nm and n.startswith(nm) for n in names.values()):
+            f.add("removed-by-a-name-that-is-a-prefix-of-another")
+        if sum(1 for n in names.values() if n == nm) > 1:
+            f.add("removed-by-a-name-shared-with-another-element")
+    return f
 
 
 def graph_call(fn, **kw):
@@ -193,6 +278,57 @@ def lean_request(L, b, s0, op, recipe, wn, we):
     return [LEAN_OP[k], wn, we, args, h1, h2, lists]
 
 
+BYNAME_ONLY = ()
+
+
+def is_marked(props):
+    import lib_c08 as L
+    for k, v in props:
+        if k == "ReservationInfo":
+            try:
+                return json.loads(v).get("reservation_state") == L.PRUNE_STATE
+            except ValueError:
+                return False
+    return False
+
+
+def wire_nodes5(L, s0):
+    """[cid, class, kind, name code, marked]: what the by-name model reads besides the structure."""
+    out = []
+    for row in s0.wire_nodes():
+        c = row[0]
+        out.append(row + [name_code(s0, s0.nodes[c][2]), 1 if is_marked(s0.nodes[c][3]) else 0])
+    return out
+
+
+def lean_request_byname(L, b, s0, op, recipe, wn5, we):
+    """The same call addressed the way the user addresses it: by name (and through the handle of the parent)."""
+    op = [o for o in op if o != "__absent__"]
+    k = op[0]
+    R = s0.ranks
+    t = b.t
+    h1 = []
+    if k in ("remove_node", "remove_switch", "remove_facility", "remove_network_service", "remove_link"):
+        if op[1] is None:
+            return None
+        lk = {"remove_node": "n_remove_node", "remove_switch": "n_remove_switch", "remove_facility": "n_remove_facility",
+              "remove_network_service": "n_remove_ns", "remove_link": "n_remove_link"}[k]
+        args = [name_code(s0, op[1])]
+    elif k == "remove_component":
+        lk, args = "n_node_remove_component", [R[t.nodes[op[1]].node_id], name_code(s0, op[2])]
+    elif k == "node_remove_ns":
+        n = t.facilities[op[1][1]] if op[1][0] == "fac" else t.nodes[op[1][1]]
+        lk, args = "n_node_remove_ns", [R[n.node_id], name_code(s0, op[2])]
+    elif k == "remove_child":
+        p = L.resolve_if(b, op[1])
+        lk, args, h1 = "n_remove_child", [R[p.node_id], name_code(s0, op[2])], hpairs(s0, p._interfaces)
+    elif k == "prune":
+        lk, args = "n_prune", []
+    else:
+        return None
+    return [lk, wn5, we, args, h1, [], []]
+
+
 def name_code(s0, name):
     """Stable small integer for an interface name (names may coincide: that is the point)."""
     names = sorted({v[2] for v in s0.nodes.values() if v[2] is not None})
@@ -225,32 +361,49 @@ def all_runs(ctx, tag, n):
 
 
 def correspondence(ctx, res, n=None):
-    recs = [r for r in all_runs(ctx, "run", n or ctx.scale(36, 220)) if not r.get("skip") and r.get("lean")]
-    model = LeanDriver("C08").run([json.dumps(r["lean"]) for r in recs])
-    for r, m in zip(recs, model):
+    recs = [r for r in all_runs(ctx, "run", n or ctx.scale(36, 220)) if not r.get("skip") and (r.get("lean") or r.get("lean_n"))]
+    lines, owner = [], []
+    for r in recs:
+        for key in ("lean", "lean_n"):
+            if r.get(key):
+                lines.append(json.dumps(r[key]))
+                owner.append((r, key))
+    model = LeanDriver("C08").run(lines)
+    for (r, key), m in zip(owner, model):
         res.evaluations += 1
-        res.count("op:" + r["op"][0])
+        res.count(("op:" if key == "lean" else "by-name:") + r["op"][0])
         i = impl_reply(r)
         m = json.loads(m)
         if m[0] == "ok":
             hyp = m[1].pop("hyp", None)
             hyp2 = m[1].pop("hyp2", None)
+            wf = m[1].pop("wf", None)
+            coll = m[1].pop("collected", None)
+            if coll is not None:
+                # what the model's collection phase gathered against the marks put on by the recipe
+                want = [sorted(x) for x in r["lean"][6]] if r.get("lean") else None
+                res.count("prune-collected-%s" % ("agrees" if want == coll else "DIFFERS"))
+                if want is not None and want != coll:
+                    res.disagreements.append({"case": {"recipe": r["recipe"], "op": r["op"]}, "impl": ["collected", want], "model": ["collected", coll]})
+            if wf is not None and i[0] == "ok" and r.get("must"):
+                # the (single) hypothesis of the wave-3 exactness / handle theorems on this pre-state
+                # (for a by-name request: WF and NamesOK, the hypotheses of the by-name theorems)
+                res.count("%s-hypothesis-%s:%s" % ("WF" if key == "lean" else "WF+NamesOK", "holds" if wf else "FAILS", r[key][0]))
+                if not wf and len(ctx.notes) < 5:
+                    ctx.notes.append("%s false on %s" % (key, canon({"recipe": r["recipe"], "op": r["op"]})[:400]))
             if hyp2 is not None:
-                # general (no link hypothesis) theorem for the interface loop: hypothesis holds and seqDelA = what was deleted
                 res.count("general-theorem-%s:%s" % ("holds" if hyp2 else "FAILS", r["lean"][0]))
             if hyp is not None:
-                # the hypothesis of the exactness theorem for this operation, evaluated by the driver on this pre-state
-                res.count("theorem-hypothesis-%s:%s" % ("holds" if hyp else "FAILS", r["lean"][0]))
-                if not hyp:
-                    ctx.notes.append("separation hypothesis false on %s" % canon({"recipe": r["recipe"], "op": r["op"]})[:400])
+                # hypothesis of the older closed-form theorems (superseded by WF; kept as a cross-check of the closed forms)
+                res.count("separation-hypothesis-%s:%s" % ("holds" if hyp else "fails", r["lean"][0]))
         if i[0] == "err":
             res.count("err:" + i[1])
-        elif r["deleted"]:
+        elif r["deleted"] and key == "lean":
             res.count("deletes")
             if r["has_conn"]:
                 res.nontrivial.add(canon([r["lean"][1], r["lean"][2], r["op"][0], r["lean"][3:]]))
         if m != i:
-            res.disagreements.append({"case": {"recipe": r["recipe"], "op": r["op"]}, "impl": i, "model": m})
+            res.disagreements.append({"case": {"recipe": r["recipe"], "op": r["op"], "request": key}, "impl": i, "model": m})
     for r in recs[3:5]:
         res.sample({"op": r["op"], "impl": impl_reply(r)})
 
@@ -303,6 +456,10 @@ def oracle(ctx, res, n=None):
         res.count("op:" + r["op"][0])
         if r.get("status") == "ok" and r["deleted"] and r["has_conn"]:
             res.nontrivial.add(canon([r["recipe"], r["op"]]))
+        if r.get("status") == "ok" and r["deleted"]:
+            # distribution of the shapes singled out in the plan, over the successful removals judged
+            for ft in r.get("feats", []):
+                res.count("feature:" + ft)
         judge(r, res)
     good = [r for r in recs if not r.get("skip") and r.get("status") == "ok" and r["deleted"]]
     for r in good[:2]:
